@@ -138,3 +138,21 @@ package mempool
 //@   requires RI(m) && SAME(m) && m.maxSize >= 0 && m.maxSponsorSize >= 1
 //@   modifies gint("len", m.queue), gmap("items", m.eh)[], gint("n", m.eh), gmap("q", m.queue)[], m.owned[], m.pendingSize, m.streamedItems, m.nextStream, m.nextStreamFetched
 //@   ensures RI(m) && SAME(m) && STREAMED(m) && isnil(m.streamedItems) && !m.nextStreamFetched
+
+// readers: membership and length answer from the same id set / count the bounds are stated over
+//@ func (*Mempool).Has props C23
+//@   noframe
+//@   opt monitor m.mu
+//@   reveal SAME
+//@   requires SAME(m)
+//@   ensures result == has(gmap("items", m.eh), str(itemID)) && result == has(gmap("q", m.queue), str(itemID))
+//@ func (*Mempool).Len props C23
+//@   noframe
+//@   opt monitor m.mu
+//@   reveal RI SAME
+//@   requires RI(m) && SAME(m)
+//@   ensures result == gint("len", m.queue) && 0 <= result && result <= m.maxSize
+//@ func (*Mempool).Size props C23
+//@   noframe
+//@   opt monitor m.mu
+//@   ensures result == m.pendingSize
